@@ -525,7 +525,10 @@ Inductive tree :=
 | TOr (l r : tree).
 
 (* one operand of an AND chain: NOT* followed by an atom or a parenthesised tree *)
-Inductive fbody := FAtom (a : atom) | FParen (t : tree).
+(* a parenthesised FLAT group  (x AND y AND z)  /  (x OR y OR z)  of optionally negated atoms: the
+   spelling in which a trailing  AND col <> ''  is directly followed by ')' *)
+Record gitem := { g_negs : nat; g_atom : atom }.
+Inductive fbody := FAtom (a : atom) | FParen (t : tree) | FGroup (is_or : bool) (items : list gitem).
 Record factor := { f_negs : nat; f_body : fbody }.
 
 (* the WHERE clause as SQL precedence reads its flat text:  chain OR chain OR ...,
@@ -572,8 +575,17 @@ Fixpoint eval_tree (r : row) (t : tree) : option bool :=
 Fixpoint negs3 (n : nat) (v : option bool) : option bool :=
   match n with O => v | S n' => not3 (negs3 n' v) end.
 
+Definition eval_gitem (r : row) (g : gitem) : option bool := negs3 (g_negs g) (eval_atom r (g_atom g)).
+Definition eval_group (r : row) (is_or : bool) (items : list gitem) : option bool :=
+  if is_or then fold_right (fun g acc => or3 (eval_gitem r g) acc) (Some false) items
+  else fold_right (fun g acc => and3 (eval_gitem r g) acc) (Some true) items.
+
 Definition eval_factor (r : row) (f : factor) : option bool :=
-  negs3 (f_negs f) (match f_body f with FAtom a => eval_atom r a | FParen t => eval_tree r t end).
+  negs3 (f_negs f) (match f_body f with
+                    | FAtom a => eval_atom r a
+                    | FParen t => eval_tree r t
+                    | FGroup o items => eval_group r o items
+                    end).
 
 Definition eval_chain (r : row) (ch : chain) : option bool :=
   fold_right (fun f acc => and3 (eval_factor r f) acc) (Some true) ch.
@@ -615,11 +627,20 @@ Fixpoint print_tree (t : tree) : bytes :=
 Fixpoint print_negs (n : nat) : bytes :=
   match n with O => [] | S n' => B "NOT " ++ print_negs n' end.
 
+Definition print_gitem (g : gitem) : bytes := print_negs (g_negs g) ++ print_atom (g_atom g).
+Fixpoint print_group (sep : bytes) (items : list gitem) : bytes :=
+  match items with
+  | [] => []
+  | [g] => print_gitem g
+  | g :: items' => print_gitem g ++ sep ++ print_group sep items'
+  end.
+
 Definition print_factor (f : factor) : bytes :=
   print_negs (f_negs f) ++
   match f_body f with
   | FAtom a => print_atom a
   | FParen t => B "(" ++ print_tree t ++ B ")"
+  | FGroup o items => B "(" ++ print_group (if o then B " OR " else B " AND ") items ++ B ")"
   end.
 
 Fixpoint print_chain (ch : chain) : bytes :=
@@ -645,9 +666,14 @@ Definition tail_text (k : nat) : bytes :=
   | _ => B " GROUP BY id"
   end.
 
-Definition select_head : bytes := B "SELECT id FROM r WHERE ".
-Definition print_query (cl : clause) (tail : nat) : bytes :=
-  select_head ++ print_clause cl ++ tail_text tail.
+(* the statement around the clause: 0 plain, 1 derived table, 2 CTE - in 1 and 2 the clause is
+   directly followed by ')' *)
+Definition print_query (cl : clause) (tail : nat) (wrap : nat) : bytes :=
+  match wrap with
+  | O => B "SELECT id FROM r WHERE " ++ print_clause cl ++ tail_text tail
+  | 1%nat => B "SELECT id FROM (SELECT * FROM r WHERE " ++ print_clause cl ++ B ") t" ++ tail_text tail
+  | _ => B "WITH q AS (SELECT * FROM r WHERE " ++ print_clause cl ++ B ") SELECT id FROM q" ++ tail_text tail
+  end.
 
 (* ---- the optimiser, on the structure the flat text denotes ---- *)
 
@@ -728,12 +754,17 @@ Definition opt2 (cl : clause) : clause :=
 
 (* OptimizeLikePatterns (fast path: the statement must contain LIKE and WHERE; WHERE always
    does here) *)
-Definition optimize (cl : clause) (tail : nat) : clause :=
-  if containsb (B "LIKE") (upperb (print_query cl tail)) then opt2 (opt1 cl) else cl.
+(* the second reordering needs GROUP / ORDER / LIMIT / end of text right after the trailing check:
+   a ')' (derived table, CTE, parenthesised group) is not a terminator *)
+Definition optimize (cl : clause) (tail : nat) (wrap : nat) : clause :=
+  if containsb (B "LIKE") (upperb (print_query cl tail wrap))
+  then match wrap with O => opt2 (opt1 cl) | _ => opt1 cl end
+  else cl.
 
 Record lcase := {
   lc_clause : clause;
   lc_tail : nat;
+  lc_wrap : nat;
   lc_in : string;                (* statement text given to OptimizeLikePatterns *)
   lc_out : string;               (* its output *)
   lc_orig_ids : list N;          (* row indices DuckDB returned for lc_in  (sorted) *)
@@ -754,10 +785,10 @@ Fixpoint listN_eqb (a b : list N) : bool :=
   end.
 
 Definition lcase_agrees (rows : list row) (c : lcase) : bool :=
-  bytes_eqb (print_query (lc_clause c) (lc_tail c)) (B (lc_in c)) &&
-  bytes_eqb (print_query (optimize (lc_clause c) (lc_tail c)) (lc_tail c)) (B (lc_out c)) &&
+  bytes_eqb (print_query (lc_clause c) (lc_tail c) (lc_wrap c)) (B (lc_in c)) &&
+  bytes_eqb (print_query (optimize (lc_clause c) (lc_tail c) (lc_wrap c)) (lc_tail c) (lc_wrap c)) (B (lc_out c)) &&
   listN_eqb (keep_ids rows (lc_clause c) 0%N) (lc_orig_ids c) &&
-  listN_eqb (keep_ids rows (optimize (lc_clause c) (lc_tail c)) 0%N) (lc_rew_ids c).
+  listN_eqb (keep_ids rows (optimize (lc_clause c) (lc_tail c) (lc_wrap c)) 0%N) (lc_rew_ids c).
 
 Definition lcase_oracle (c : lcase) : bool := listN_eqb (lc_orig_ids c) (lc_rew_ids c).
 
